@@ -36,6 +36,16 @@ CHECKS["C14"] = dict(
    text="For generated documents (multi-byte characters, BOM, CRLF, decoration around every token) the byte range of every key, value and header section is known by construction and must equal Key/Value/Item::span() on ImDocument and the ranges a span-probing serde mirror type receives; slices re-parse to the same value/key/table; containment, bounds and char boundaries hold; spans vanish after into_mut(); four twin types with/without Spanned succeed together. Sampled exploration (40k quick / 1M thorough documents).",
    note="expected ranges come from the harness' renderer; table spans without a header of their own are only required to be in bounds",
    design="4/C14")
+CHECKS["C20"] = dict(
+   technique="recording visitors compared with an independent pre-order walk of the by-construction model (proptest-driven); metamorphic rewrite (+1 on every integer) checked on the decoded tree and on verbatim fragments",
+   text="For generated documents and the valid fixtures, the event log of a recording Visit and VisitMut (defaults everywhere) must equal the walk computed from the expected model alone: every kv, item, table, inline table, array, array of tables, value and typed scalar exactly once, in order. A visit_integer_mut override must change all integers and nothing else. Sampled exploration.",
+   note="expected model comes from the harness' renderer; documents with specification-ambiguous key order (U2.c) are skipped and counted",
+   design="4/C20")
+CHECKS["C15"] = dict(
+   technique="fault injection and mutation over generated documents with an independent line/column oracle; exhaustive truncation of fixtures; typed-decode errors provoked at a chosen path by a seed type, location known by construction",
+   text="Every rejection by DocumentMut, ImDocument, toml::from_str and toml_edit::de::from_str must carry a non-empty message, a span inside the document on char boundaries, render without panic with `line L, column C` equal to an independent character-based computation and the right echoed line; typed mismatches must be located at the offending item's source range (text available) or by key path (DocumentMut). Sampled exploration plus exhaustive truncation of all fixtures <= 600 bytes.",
+   note="expected positions follow the wording of the property; known finding F14 (empty message for a stray CR, pinned by the repository's own tests) is tolerated under a narrow signature",
+   design="4/C15")
 NOT_YET = {}
 
 def main():
